@@ -258,6 +258,17 @@ func CheckBuilt(b *trav.Built, c Case) (fs []core.Finding, outcome string) {
 			fs = append(fs, core.F(cause, "%s: expected matches %s, observed %s err=%q", where, render(em), render(gm.Visits), gm.Err))
 		}
 	}
+	// the package-level functions (a zero Progress) on graphs without links: the same walks
+	if len(fs) == 0 && len(b.Links) == 0 && !strings.Contains(c.Graph.String(), "<") {
+		gp := trav.RunWalk(b, b.Root, sel, trav.WalkOpts{PackageLevel: true, NodeBudget: -1, LinkBudget: -1})
+		if gp.Err != "" || !sameSeq(exp.Visits, gp.Visits) {
+			fs = append(fs, core.F("package-level-walkadv/"+feat+"/"+diffCause(exp.Visits, gp.Visits), "%s: traversal.WalkAdv: expected %s, observed %s err=%q", where, render(exp.Visits), render(gp.Visits), gp.Err))
+		}
+		gpm := trav.RunWalk(b, b.Root, sel, trav.WalkOpts{PackageLevel: true, Matching: true, NodeBudget: -1, LinkBudget: -1})
+		if gpm.Err != "" || !sameSeq(em, gpm.Visits) {
+			fs = append(fs, core.F("package-level-walkmatching/"+feat+"/"+diffCause(em, gpm.Visits), "%s: traversal.WalkMatching: expected %s, observed %s err=%q", where, render(em), render(gpm.Visits), gpm.Err))
+		}
+	}
 	if len(fs) > 0 {
 		return fs, "bad"
 	}
@@ -368,12 +379,22 @@ func Main(r *core.Run) {
 		})
 	}
 	stopAtJobs(r, small)
+	specHelpers(r, jobs[0].ss, jobs[1].ss, jobs[2].ss)
 	ss, gs := jobs[0].ss, jobs[0].gs
 	r.Sample(map[string]any{"selector": ss[len(ss)/2].String(), "graph": gs[len(gs)/2].String()})
 	r.Sample(map[string]any{"selector": jobs[1].ss[len(jobs[1].ss)/3].String(), "graph": jobs[1].gs[len(jobs[1].gs)-1].String()})
 }
 
 func Replay(r *core.Run, raw json.RawMessage) {
+	var probe struct {
+		Graph *json.RawMessage `json:"graph"`
+	}
+	var sc SpecCase
+	if json.Unmarshal(raw, &probe) == nil && probe.Graph == nil && json.Unmarshal(raw, &sc) == nil && sc.Sel != nil {
+		// a case without a graph: the specification helpers
+		r.Report("spec-helpers", sc, CheckSpecHelpers(sc.Sel))
+		return
+	}
 	var c Case
 	if err := json.Unmarshal(raw, &c); err != nil {
 		panic(err)
@@ -477,6 +498,20 @@ func stopAtJobs(r *core.Run, gs []trav.GraphSpec) {
 	for _, g := range gs {
 		if len(g.Cuts) > 0 || strings.Contains(g.String(), "<") {
 			withLinks = append(withLinks, g)
+		}
+	}
+	// two different links with one multihash (the block linked as dag-cbor and, beside it, as raw bytes):
+	// a stop-at condition names a link, not a hash
+	leaf := ref.Int(7)
+	for _, t := range []ref.Val{
+		ref.Map(ref.E("a", ref.Map(ref.E("x", leaf))), ref.E("b", leaf)),
+		ref.List(ref.List(leaf), ref.Map(ref.E("a", ref.List(leaf)))),
+		ref.Map(ref.E("a", ref.Map(ref.E("a", ref.Map(ref.E("x", leaf)))))),
+	} {
+		for _, c := range trav.CutSets(t, 2, false) {
+			if len(c) > 0 {
+				withLinks = append(withLinks, trav.GraphSpec{Tree: t, Cuts: c, Twins: true})
+			}
 		}
 	}
 	nsel := len(stopFamilies("x"))
